@@ -2,7 +2,7 @@
    Statements only; proofs are in Proofs/C01.v and Proofs/C01_delim.v. *)
 From Coq Require Import ZArith List Bool Arith.
 From Coq Require Import String.
-From BNP Require Import Base.Prims Model.C01 Proofs.C01 Proofs.C01_delim Proofs.C01_lines.
+From BNP Require Import Base.Prims Model.C01 Proofs.C01 Proofs.C01_delim Proofs.C01_lines Gen.C01 Bridge.C01.
 Import ListNotations.
 
 (* T1 (every format, both reader modes, the repaired and the pinned code): whatever the chunk size,
@@ -63,6 +63,48 @@ Proof.
   rewrite <- Hc. symmetry. apply lines_concat. exact HE.
 Qed.
 Print Assumptions C01_oneline_records_exact.
+
+(* Source tie: the decision rules and arithmetic of the reader regenerated from /repo on this run (Gen/C01.v, by
+   translate/gen_c01.py from parser.py, one_line_buffer.py, fastq_buffer.py, delimited_buffers.py) are the ones the
+   model is built from: end-of-file inference from a short read, "read nothing", when and in which order the line
+   break and the marker are appended, the seek-back offset and the kept tail, the give-up rule at end of file, the
+   line bookkeeping, the n-lines-per-record cut (incomplete test, kept lines, size), the marker / '+' validation
+   slices and reported lines, and the delimited cut. *)
+Theorem C01_source_tie :
+  (forall n_read k : nat, gen_is_finished (Z.of_nat n_read) (Z.of_nat k) = m_is_finished n_read k)
+  /\ (forall raw : list Z, gen_read_nothing (Z.of_nat (List.length raw)) = match raw with [] => true | _ => false end)
+  /\ gen_terminate_iff_finished = true
+  /\ (forall f chunk, add_term f chunk = ((if gen_needs_newline (last chunk 0%Z) then chunk ++ [10%Z] else chunk) ++ marker f)%list)
+  /\ gen_terminator_order = ["newline"%string; "marker"%string]
+  /\ (forall (pos' size : nat) (chunk : list Z), (size <= List.length chunk)%nat -> (List.length chunk <= pos')%nat ->
+        Z.of_nat (pos' - List.length (skipn size chunk)) = (Z.of_nat pos' + gen_seek_offset (Z.of_nat size) (Z.of_nat (List.length chunk)))%Z)
+  /\ (forall size : Z, gen_prepend_slice size = (size, -1000, -1000)%Z)
+  /\ gen_tail_rule = ["unless finished"%string; "seek back"%string; "else keep tail"%string]
+  /\ (forall (re : bool) (temp : list (list Z)),
+        gen_eof_give_up re (Z.of_nat (List.length temp)) = (negb true || re || match temp with [] => true | _ => false end))
+  /\ (forall l nl : nat, Z.of_nat (m_lines_after l nl) = gen_lines_after (Z.of_nat l) (Z.of_nat nl))
+  /\ (forall l0 lines : nat, Z.of_nat (m_reported l0 lines) = gen_reported_line (Z.of_nat l0) (Z.of_nat lines))
+  /\ (forall cnt n : nat, gen_oneline_incomplete (Z.of_nat cnt) (Z.of_nat n) = m_oneline_incomplete cnt n)
+  /\ (forall cnt n : nat, (1 <= n)%nat -> gen_oneline_kept (Z.of_nat cnt) (Z.of_nat n) = (-1000, Z.of_nat (m_oneline_kept cnt n), -1000)%Z)
+  /\ (forall (n : nat) (kept : list Z), (1 <= n)%nat ->
+        strided kept (n - 1) n (List.length kept - 1) 0 = filter_idx (py_slice_sel (gen_header_slice (Z.of_nat n)) (List.length kept)) kept 0)
+  /\ (forall i n : nat, Z.of_nat (m_header_line i n) = gen_header_line (Z.of_nat i) (Z.of_nat n))
+  /\ gen_first_record_line = 0%Z
+  /\ (forall (n : nat) (kept : list Z), (1 <= n)%nat ->
+        strided kept 1 n (List.length kept) 0 = filter_idx (py_slice_sel (gen_plus_slice (Z.of_nat n)) (List.length kept)) kept 0)
+  /\ gen_plus_symbol = 43%Z
+  /\ (forall j n : nat, Z.of_nat (m_plus_line j n) = gen_plus_line (Z.of_nat j) (Z.of_nat n))
+  /\ (forall last_nl : Z, m_size_after last_nl = Z.to_nat (gen_delim_size last_nl))
+  /\ (forall i before : nat, Z.of_nat (before + i) = gen_parse_error_line (Z.of_nat i) (Z.of_nat before)).
+Proof.
+  repeat split; first
+    [ exact b_is_finished | exact b_read_nothing | exact b_terminate_iff_finished | exact b_needs_newline
+    | exact b_terminator_order | exact b_seek_offset | exact b_prepend_slice | exact b_tail_rule | exact b_eof_give_up
+    | exact b_lines_after | exact b_reported_line | exact b_oneline_incomplete | exact b_oneline_kept
+    | exact b_header_slice | exact b_header_line | exact b_first_record_line | exact b_plus_slice | exact b_plus_symbol
+    | exact b_plus_line | exact b_delim_size | exact b_parse_error_line ].
+Qed.
+Print Assumptions C01_source_tie.
 
 (* The code at the pinned commit violated T2: a raw read that ends exactly at end of file left the
    unterminated tail undelivered (history; repaired in /repo by the fix: commit). *)
